@@ -3,6 +3,7 @@ package main
 import (
 	"fmt"
 	"strconv"
+	"strings"
 	"time"
 
 	"github.com/fufuok/cache"
@@ -112,7 +113,10 @@ var (
 	stringKeys = KeyCodec[string]{"string", func(s string) string { return s }, func(k string) string { return k }}
 	intKeys    = KeyCodec[int]{"int", keyIndex, keyName}
 	structKeys = KeyCodec[structKey]{"struct",
-		func(s string) structKey { i := keyIndex(s); return structKey{int32(i), "s" + strconv.Itoa(i%7), uint8(i)} },
+		func(s string) structKey {
+			i := keyIndex(s)
+			return structKey{int32(i), "s" + strconv.Itoa(i%7), uint8(i)}
+		},
 		func(k structKey) string { return keyName(int(k.A)) }}
 
 	anyVals = ValCodec[any]{"any",
@@ -258,7 +262,7 @@ type cacheAdapter struct {
 	hasCb bool
 }
 
-func (a *cacheAdapter) Raw() interface{}        { return a.c }
+func (a *cacheAdapter) Raw() interface{}         { return a.c }
 func (a *cacheAdapter) Set(k, v string, d int64) { a.c.Set(k, anyVals.Enc(v), time.Duration(d)) }
 func (a *cacheAdapter) SetDefault(k, v string)   { a.c.SetDefault(k, anyVals.Enc(v)) }
 func (a *cacheAdapter) SetForever(k, v string)   { a.c.SetForever(k, anyVals.Enc(v)) }
@@ -458,6 +462,9 @@ func newCache(cfg CacheCfg, cb func(k, v string)) CacheAPI {
 			return &cacheAdapter{c: cache.New(opts...)}
 		}
 	case "CacheOf":
+		if strings.HasPrefix(cfg.KeyType, "cat:") {
+			return newCatalogueCache(cfg, cb)
+		}
 		switch cfg.KeyType + "/" + cfg.ValType {
 		case "string/any", "/", "string/", "/any":
 			return newCacheOf(cfg, cb, stringKeys, anyVals)
@@ -525,6 +532,9 @@ func newMap(cfg MapCfg) MapAPI {
 		}
 		return mapAdapter{cache.NewMap()}
 	case "MapOf":
+		if strings.HasPrefix(cfg.KeyType, "cat:") {
+			return newCatalogueMap(cfg)
+		}
 		switch cfg.KeyType + "/" + cfg.ValType {
 		case "string/any", "/", "string/", "/any":
 			return newMapOf(cfg, stringKeys, anyVals)
